@@ -127,33 +127,35 @@ Local Notation fone := (f1 Op).
 Local Notation "a *f b" := (fmul Op a b) (at level 40, left associativity).
 
 (* ------------------------------------------------------------------ tensor train / tensor ring
-   a core is a dense order-3 tensor of shape [r1; n; r2] *)
+   a core is a dense tensor of shape r1 :: mid ++ [r2]: mid = [n] for a tensor train / ring, [m; n] for a TT-matrix *)
 Definition tget (t : tensor F) (idx : list nat) : F := get fz t idx.
-Definition core_r1 (G : tensor F) : nat := nth 0 (shape G) 0.
+Definition core_r1 (G : tensor F) : nat := hd 0 (shape G).
 Definition core_n (G : tensor F) : nat := nth 1 (shape G) 0.
-Definition core_r2 (G : tensor F) : nat := nth 2 (shape G) 0.
+Definition core_r2 (G : tensor F) : nat := last (shape G) 0.
+Definition core_mid (G : tensor F) : list nat := removelast (tl (shape G)).
 Definition delta (a b : nat) : F := if Nat.eqb a b then fone else fz.
-(* entry (a, b) of the matrix product G_1[:, j_1, :] G_2[:, j_2, :] ... *)
-Fixpoint tt_chain (cores : list (tensor F)) (idx : list nat) (a b : nat) : F :=
+(* entry (a, b) of the matrix product G_1[:, js_1, :] G_2[:, js_2, :] ... ; js_k is the multi-index into the middle modes of core k *)
+Fixpoint tt_chain (cores : list (tensor F)) (idx : list (list nat)) (a b : nat) : F :=
   match cores, idx with
-  | G :: gs, j :: js => sumn Op (core_r2 G) (fun c => tget G [a; j; c] *f tt_chain gs js c b)
+  | G :: gs, js :: rest => sumn Op (core_r2 G) (fun c => tget G (a :: js ++ [c]) *f tt_chain gs rest c b)
   | _, _ => delta a b
   end.
-Definition tt_entry (cores : list (tensor F)) (idx : list nat) : F := tt_chain cores idx 0 0.
+(* order-3 cores: one physical index per core *)
+Definition single (idx : list nat) : list (list nat) := map (fun j => [j]) idx.
+Definition tt_entry (cores : list (tensor F)) (idx : list nat) : F := tt_chain cores (single idx) 0 0.
 Definition tr_entry (cores : list (tensor F)) (idx : list nat) : F :=
-  sumn Op (core_r1 (hd (mk [] []) cores)) (fun a => tt_chain cores idx a a).
+  sumn Op (core_r1 (hd (mk [] []) cores)) (fun a => tt_chain cores (single idx) a a).
 Definition tt_shape (cores : list (tensor F)) : list nat := map core_n cores.
 Definition tt_to_tensor (cores : list (tensor F)) : tensor F := tabulate (tt_shape cores) (tt_entry cores).
 Definition tr_to_tensor (cores : list (tensor F)) : tensor F := tabulate (tt_shape cores) (tr_entry cores).
 
-(* pad_tt_rank: new_factor = zeros((r1 + left, n, r2 + right)); new_factor[:r1, ..., :r2] = factor
+(* pad_tt_rank: r1, *s, r2 = shape; new_factor = zeros((r1 + left, *s, r2 + right)); new_factor[:r1, ..., :r2] = factor
    left = 0 for the first core, right = 0 for the last core unless pad_boundaries (the only core of an order-1
    train is both first and last) *)
 Definition pad_core (l r : nat) (G : tensor F) : tensor F :=
-  tabulate [core_r1 G + l; core_n G; core_r2 G + r]
-    (fun ix => let a := nth 0 ix 0 in let c := nth 2 ix 0 in
-               if (a <? core_r1 G) && (c <? core_r2 G) then tget G ix else fz).
-Definition is3 (G : tensor F) : bool := Nat.eqb (length (shape G)) 3 && wfb G.
+  tabulate (core_r1 G + l :: core_mid G ++ [core_r2 G + r])
+    (fun ix => if (hd 0 ix <? core_r1 G) && (last ix 0 <? core_r2 G) then tget G ix else fz).
+Definition iscore (G : tensor F) : bool := (2 <=? length (shape G)) && wfb G.
 Fixpoint pad_from (i n npad : nat) (pb : bool) (cores : list (tensor F)) : list (tensor F) :=
   match cores with
   | [] => []
@@ -162,7 +164,7 @@ Fixpoint pad_from (i n npad : nat) (pb : bool) (cores : list (tensor F)) : list 
       :: pad_from (S i) n npad pb gs
   end.
 Definition pad_tt_rank (cores : list (tensor F)) (npad : nat) (pb : bool) : res (list (tensor F)) :=
-  if forallb is3 cores then Ok (pad_from 0 (length cores) npad pb cores) else Err.
+  if forallb iscore cores then Ok (pad_from 0 (length cores) npad pb cores) else Err.
 
 (* ------------------------------------------------------------------ Tucker: represented tensor
    entry idx = sum over the core multi-index js of core[js] * prod_k A_k[idx_k][js_k] *)
@@ -272,20 +274,18 @@ Section M3.
 Context {F : Type} (Op : fops F).
 (* ------------------------------------------------------------------ the input forms of the CP entry points
    A CP tensor reaches cp_mode_dot / cp_flip_sign either as a CPTensor object (weights None already replaced by ones
-   by the constructor) or as a plain (weights, factors) tuple, whose weights may be None.  Modelled as they are:
-     cp_mode_dot, tuple, copy=False : the result is written back through `cp_tensor.shape = ...`  -> AttributeError
-     cp_mode_dot, tuple, copy=True, weights None : T.copy(None) is a 0-d object array -> rejected by the CPTensor constructor
-     cp_flip_sign, tuple, weights None : T.sign(None) -> TypeError *)
+   by the constructor) or as a plain (weights, factors) tuple, whose weights may be None.  On the repaired tree
+   (/repo 98aff0c, 85a028b) every form is accepted: None weights count as ones (cp_flip_sign substitutes them, the
+   CPTensor constructor does so for the result of cp_mode_dot), a tuple operand gets a fresh CPTensor as result, and
+   copy only decides whether the operand's arrays are reused.  is_class / copy stay arguments of the model so that the
+   correspondence keeps exercising every form. *)
 Definition cp_rank (fs : list (mat F)) : nat := ncols (hd [] fs).
+Definition weights_or_ones (w : option (list F)) (fs : list (mat F)) : list F :=
+  match w with Some w0 => w0 | None => ones Op (cp_rank fs) end.
 Definition cp_mode_dot_api (is_class copy : bool) (w : option (list F)) (fs : list (mat F)) (x : operand)
   (mode : nat) (keep_dim : bool) : res (list F * list (mat F)) :=
-  if is_class then cp_mode_dot Op (match w with Some w0 => w0 | None => ones Op (cp_rank fs) end) fs x mode keep_dim
-  else if copy then match w with Some w0 => cp_mode_dot Op w0 fs x mode keep_dim | None => Err end
-  else Err.
+  cp_mode_dot Op (weights_or_ones w fs) fs x mode keep_dim.
 Definition cp_flip_sign_api (is_class : bool) (summ : list F -> F) (w : option (list F)) (fs : list (mat F)) (mode : nat)
   : res (list F * list (mat F)) :=
-  match w with
-  | Some w0 => cp_flip_sign Op summ w0 fs mode
-  | None => if is_class then cp_flip_sign Op summ (ones Op (cp_rank fs)) fs mode else Err
-  end.
+  cp_flip_sign Op summ (weights_or_ones w fs) fs mode.
 End M3.
